@@ -286,6 +286,21 @@ func ruleServerWiring(c *Ctx, which []string) {
 		var out []string
 		child := n
 		for p := parents[n]; p != nil; child, p = p, parents[p] {
+			// for _, x := range probe(opt) { … }: nothing happens unless the option is present
+			if rs, ok := p.(*ast.RangeStmt); ok && child == ast.Node(rs.Body) {
+				if t := probeOfExpr(rs.X); t != "" {
+					out = append(out, t)
+					continue
+				}
+				if v, ok := objOfIdent(info, rs.X).(*types.Var); ok {
+					if def := soleDefinition(info, fi.Decl, v); def != nil {
+						if t := probeOfExpr(def); t != "" {
+							out = append(out, t)
+						}
+					}
+				}
+				continue
+			}
 			ifs, ok := p.(*ast.IfStmt)
 			if !ok || child != ast.Node(ifs.Body) {
 				continue
@@ -336,7 +351,15 @@ func ruleServerWiring(c *Ctx, which []string) {
 			continue
 		}
 		c.Sites++
-		got[eff] = append(got[eff], strings.Join(governing(call), "&"))
+		gs := governing(call)
+		sort.Strings(gs)
+		var uq []string
+		for i, g := range gs {
+			if i == 0 || g != gs[i-1] {
+				uq = append(uq, g)
+			}
+		}
+		got[eff] = append(got[eff], strings.Join(uq, "&"))
 	}
 	for _, ctor := range which {
 		eff := want[ctor]
